@@ -351,6 +351,12 @@ def run_reader(data, filt=7, quit=1, parsing=True, handler=True, msgmode=0, vali
         from . import sock as _sock
 
         cuts = sorted({i for i, b in enumerate(data) if b == 0x0A and i > 0} | {k for k in range(3, len(data), 17)})
+        if len(data) <= 20000 and (len(data) + filt + quit) % 2 == 1:
+            cuts = list(range(1, len(data)))  # a peer that trickles: one byte per recv() (thousands of recv() calls for one long line)
+        elif len(data) > 200000:
+            # bulk transfer: recv() returns full buffers (4096 bytes) that end anywhere inside frames - the wrapper's buffer is
+            # (almost) never drained exactly at a read boundary
+            cuts = list(range(4096, len(data), 4096))
         stream = _sock.ScriptSock(_sock.segments(bytes(data), cuts), ("close", "timeout", "reset")[(len(data) + filt + quit) % 3], [])
         sockview = _SockView(stream, data)
     elif kind == "bytesio" and not bursts and len(data) > 0 and (len(data) + filt) % 3 == 0:
@@ -380,6 +386,20 @@ def run_reader(data, filt=7, quit=1, parsing=True, handler=True, msgmode=0, vali
                 errs.append(err)
 
         on_error = _Collector()
+    elif handler and (len(data) + filt) % 3 == 1 and len(data) % 2:
+        # ... or a callable application object that ALSO looks like a logger / a file (error(), warning(), write() ... of its own):
+        # the error handler is the object itself, called with the error
+        class _Facade:
+            def __call__(self, err):
+                events.append({"t": "handler", "n": 0, "got": 0, "a": 0, "b": stream.pos, "p": "", "fam": family(err)})
+                errs.append(err)
+
+            def _other(self, *a, **k):
+                pass
+
+            error = warning = info = debug = exception = critical = log = write = send = put = append = handle = emit = _other
+
+        on_error = _Facade()
 
     kw = dict(msgmode=msgmode, validate=validate, protfilter=filt, quitonerror=quit, parsebitfield=pbf, parsing=parsing, labelmsm=labelmsm)
     if handler:
@@ -424,7 +444,11 @@ def run_reader(data, filt=7, quit=1, parsing=True, handler=True, msgmode=0, vali
         _warnings.filterwarnings("error", module=r"pyubx2(\.|$)")
         _warnings.filterwarnings("error", module=r"harness(\.|$)")
     try:
-        rdr = UBXReader(stream, **kw)
+        if (len(data) + quit + 2 * filt) % 4 == 3:
+            # every documented option given positionally, in the documented order
+            rdr = UBXReader(stream, msgmode, validate, filt, quit, pbf, labelmsm, 4096, parsing, *((on_error,) if handler else ()))
+        else:
+            rdr = UBXReader(stream, **kw)
         if sockview is not None:
             sockview.rdr = rdr
             stream = sockview
@@ -514,7 +538,7 @@ def run_reader(data, filt=7, quit=1, parsing=True, handler=True, msgmode=0, vali
         # stays in the wrapper's buffer, whose read(n) is all-or-nothing)
         "end": end, "endfam": endfam, "left": (len(data) - stream.pos) if sockview is None else (len(data) - sockview.received()),
         "errfams": [family(e) for e in errs],
-        "raised_same": -1, "logs": logs,
+        "raised_same": -1, "logs": logs, "resume": 1 if resume else 0,
     }
     run["_items"] = items
     run["_errs"] = errs
